@@ -58,3 +58,13 @@ check("C15", "exploration",
       "Tokens minted through the real /connect flow for a range of user names must yield 200 with the right subject, open under the configured keys with the lab's own JOSE code and not reveal the name; every sampled single-character substitution of the five segments whose decoded bytes change, truncations, tokens under other keys / algorithms / issuers / expiry, plain signed JWTs, junk and cross-mode tokens must yield 403 without claim text; parameter and method errors 400 / 405; a token valid only by leeway is looked up before and again after the leeway ran out.",
       "trusted: the lab's JOSE implementation (cross-validated: its own forged tokens are accepted, minted tokens open); the leeway probe uses one-sided margins of >= 10 s / 15 s",
       "DESIGN.md 4 C15")
+check("C12", "exploration",
+      "runtime monitoring: policy/claims oracle over /connect responses of real gateway processes (own RDP line parser, own JWS decoding) + replay of issued files over real tunnels",
+      "One gateway process per configuration of host selection x host list x user-name options; anonymous, garbage-cookie and failed-login requests must be redirected to the IdP and never receive a token; logged-in sessions of several users from several client addresses (including the same user from two addresses and one session roaming between addresses) request listed, unlisted, near-miss and signed (good / expired / wrong issuer / wrong key / alg none) hosts; file content, target host policy and all token claims are checked, and under roundrobin / unsigned / any the issued host and token are replayed over a real tunnel from the same address.",
+      "trusted: fake IdP with sub == preferred_username, lab parsers; the configuration space is sampled (40 processes quick, 160 thorough)",
+      "DESIGN.md 4 C12")
+check("C13", "exploration",
+      "runtime monitoring: session-authentication oracle (authenticated := /connect returns a file) over scripted callback failures, both session stores, cookie mutation sweep, against real gateway processes and a scripted fake IdP",
+      "Every scripted callback failure (16 kinds) is followed by a download with all cookies the exchange set and must not be authenticated, for the cookie and the file session store; successful logins with each user-name claim and varied identity contents must name exactly that user on 20 interleaved follow-up requests; every sampled single-character substitution, truncation and extension of an authenticated cookie and the cookie of an instance with other keys must not be authenticated unless the mutant decodes to identical bytes; thorough adds the 125 s state-expiry probe.",
+      "trusted: fake IdP (RS256 tokens built with the standard library); quick tier skips the state-expiry wait",
+      "DESIGN.md 4 C13")
